@@ -1,5 +1,5 @@
 """C14 - whitespace changes are confined to the borders of removals (same mechanisms as C02.R4-R6)."""
-from . import deletion
+from . import deletion, intervals
 
 LEVEL = "other"
 
@@ -11,10 +11,12 @@ def run(ctx, res):
         "character; only a '\\n' on a char boundary is reported; (R2) every scanner call inside a seam formatter passes the "
         "literal pause_on_char = true; (R3) each endpoint a seam formatter returns is the seam, a pausing-scanner result or "
         "that + 1, so a seam formatter never reaches beyond the blank run (at most the blank lines) adjacent to the seam; "
-        "(R4) the block formatter's ranges are clamped per line by min(_, first non-blank).  Decides these clauses, not the "
+        "(R4) the block formatter's ranges are clamped per line by min(_, first non-blank); (R5) merging two formatter ranges never covers a "
+        "position outside both (complete table over endpoint orderings, sorted or not).  Decides these clauses, not the "
         "verbatim survival of every stretch.")
     res.trusted += ["driver fact extraction and the abstract interpreter"]
     deletion.scanner_tables(ctx, res, "C14.R1")
     deletion.pausing_sites(ctx, res, "C14.R2")
     deletion.seam_ranges(ctx, res, "C14.R3")
     deletion.block_ranges(ctx, res, "C14.R4")
+    intervals.union_rule(ctx, res, "C14.R5")
